@@ -1,7 +1,295 @@
 package props
 
-import "verif/internal/eng"
+import (
+	"fmt"
+	"math/big"
+	"reflect"
+	"sort"
+	"strings"
 
-func c10SchemaCases(tier string, emit func(interface{})) {}
+	"github.com/freeconf/yang/meta"
+	"github.com/freeconf/yang/node"
+	"github.com/freeconf/yang/val"
+	"verif/internal/eng"
+	"verif/internal/model"
+)
 
-func c10RunSchema(c c10Case) eng.Result { return eng.Result{} }
+// C10 part "schema": node.NewValue(type, source) for the schema-defined
+// types: enumeration (by value and by name), bits (by names and by position
+// mask), identityref, union and leafref (delegating to the target's type),
+// with every source kind and boundary value of the "conv" part, as scalars
+// and as lists. The reference knows what each source denotes (number / text /
+// bool) and which values / names the type defines.
+
+func init() {
+	model.Schemas["conv"] = `module conv { namespace "urn:conv"; prefix cv; revision 0;
+  identity base-id; identity id-a { base base-id; } identity id-b { base id-a; } identity other;
+  leaf e { type enumeration { enum zero; enum one; enum five { value 5; } enum big { value 2147483647; } } }
+  leaf-list le { type enumeration { enum zero; enum one; enum five { value 5; } enum big { value 2147483647; } } }
+  leaf b { type bits { bit x; bit y; bit z { position 5; } bit top { position 31; } } }
+  leaf-list lb { type bits { bit x; bit y; bit z { position 5; } bit top { position 31; } } }
+  leaf idr { type identityref { base base-id; } }
+  leaf-list lidr { type identityref { base base-id; } }
+  leaf i8 { type int8; }
+  leaf u64 { type uint64; }
+  leaf r8 { type leafref { path "../i8"; } }
+  leaf r64 { type leafref { path "../u64"; } }
+  leaf-list lr8 { type leafref { path "../i8"; } }
+  leaf un { type union { type int8; type boolean; } }
+  leaf us { type union { type uint8; type string; } }
+}`
+}
+
+var c10SchemaLeaves = []string{"e", "le", "b", "lb", "idr", "lidr", "r8", "r64", "lr8", "un", "us"}
+
+func c10SchemaCases(tier string, emit func(interface{})) {
+	for _, lf := range c10SchemaLeaves {
+		for _, k := range c10Kinds {
+			emit(c10Case{Part: "schema", Schema: lf, Kind: k})
+		}
+	}
+}
+
+var c10Enum = map[string]int64{"zero": 0, "one": 1, "five": 5, "big": 2147483647}
+var c10Bits = map[string]uint{"x": 0, "y": 1, "z": 5, "top": 31}
+// the base itself is accepted by the library (known finding of C05: identityref/the-base-itself); conversion of its name is exact
+var c10Idents = map[string]bool{"id-a": true, "id-b": true, "base-id": true}
+
+func c10BitMask() uint64 {
+	var m uint64
+	for _, p := range c10Bits {
+		m |= 1 << p
+	}
+	return m
+}
+
+// c10SrcClass classifies a source for signatures (no values).
+func c10SrcClass(s srcVal) string {
+	switch {
+	case s.boo != nil:
+		return "bool"
+	case s.num != nil && s.txt != nil:
+		return "numeric-text"
+	case s.num != nil && !s.num.IsInt():
+		return "fraction"
+	case s.num != nil && s.num.Sign() < 0:
+		return "negative"
+	case s.num != nil && s.num.Num().BitLen() > 31:
+		return "beyond-31-bits"
+	case s.num != nil:
+		return "small-integer"
+	case s.txt != nil:
+		return "text"
+	}
+	if s.class != "" {
+		return s.class
+	}
+	return "other"
+}
+
+// checkEnum: an accepted source must denote the value or the name of the enum returned.
+func c10CheckEnum(s srcVal, got val.Value) (sym, what string) {
+	e, ok := got.(val.Enum)
+	if !ok {
+		return "wrong-type", fmt.Sprintf("result is %T", got)
+	}
+	id, defined := c10Enum[e.Label]
+	if !defined || int64(e.Id) != id {
+		return "undefined-enum-returned", fmt.Sprintf("result %v is not an enum of the type", e)
+	}
+	if s.txt != nil && *s.txt == e.Label {
+		return "", ""
+	}
+	if s.num != nil && s.num.IsInt() && s.num.Num().IsInt64() && s.num.Num().Int64() == id {
+		return "", ""
+	}
+	return "different-value", fmt.Sprintf("source %s does not denote enum %s(%d)", s.lbl, e.Label, e.Id)
+}
+
+func c10CheckBits(s srcVal, got val.Value) (sym, what string) {
+	b, ok := got.(val.Bits)
+	if !ok {
+		return "wrong-type", fmt.Sprintf("result is %T", got)
+	}
+	// labels and positions of the result must agree with each other and the type
+	var fromLabels uint64
+	for _, l := range b.Labels {
+		p, ok := c10Bits[l]
+		if !ok {
+			return "undefined-bit-returned", fmt.Sprintf("result names bit %q", l)
+		}
+		fromLabels |= 1 << p
+	}
+	if fromLabels != b.Positions {
+		return "labels-disagree-with-positions", fmt.Sprintf("labels %v positions %b", b.Labels, b.Positions)
+	}
+	switch {
+	case s.num != nil && s.txt == nil:
+		if !s.num.IsInt() || s.num.Sign() < 0 || !s.num.Num().IsUint64() || s.num.Num().Uint64() != b.Positions {
+			return "different-number", fmt.Sprintf("source %s accepted as bit mask %d (%v)", s.lbl, b.Positions, b.Labels)
+		}
+	case s.txt != nil:
+		var want uint64
+		for _, w := range strings.Fields(*s.txt) {
+			p, ok := c10Bits[w]
+			if !ok {
+				return "unknown-name-accepted", fmt.Sprintf("source %q accepted as %v", *s.txt, b.Labels)
+			}
+			want |= 1 << p
+		}
+		if want != b.Positions {
+			return "different-bits", fmt.Sprintf("source %q accepted as %v", *s.txt, b.Labels)
+		}
+	default:
+		return "non-number-accepted", fmt.Sprintf("source %s accepted as %v", s.lbl, b.Labels)
+	}
+	return "", ""
+}
+
+func c10CheckIdent(s srcVal, got val.Value) (sym, what string) {
+	r, ok := got.(val.IdentRef)
+	if !ok {
+		return "wrong-type", fmt.Sprintf("result is %T", got)
+	}
+	if !c10Idents[r.Label] {
+		return "undefined-identity-returned", fmt.Sprintf("result %q is not derived from the base", r.Label)
+	}
+	if s.txt == nil {
+		return "non-text-accepted", fmt.Sprintf("source %s accepted as identity %s", s.lbl, r.Label)
+	}
+	t := *s.txt
+	if t != r.Label && t != "conv:"+r.Label && t != "cv:"+r.Label {
+		return "different-identity", fmt.Sprintf("source %q accepted as identity %s", t, r.Label)
+	}
+	return "", ""
+}
+
+// extra text sources for the named types (added to the "string" kind)
+func c10NameSources() []srcVal {
+	var out []srcVal
+	for _, t := range []string{"zero", "one", "five", "big", "Zero", "zer", "zero ", "x", "y", "z", "top", "x y", "y x z top", "x  y", "x q", "x,y", "X",
+		"id-a", "id-b", "base-id", "other", "conv:id-a", "cv:id-b", "zz:id-a", "conv:other", ":id-a", "id-a:", "true", "false", ""} {
+		tt := t
+		sv := srcVal{v: tt, txt: &tt, lbl: fmt.Sprintf("%q", tt), class: "name-text"}
+		if tt == "true" || tt == "false" {
+			b := tt == "true"
+			sv.boo = &b
+		}
+		out = append(out, sv)
+	}
+	return out
+}
+
+func c10RunSchema(c c10Case) eng.Result {
+	var res eng.Result
+	ss := &sigSet{res: &res}
+	m := model.Schema("conv")
+	lf := model.DefAt(m, c.Schema).(meta.Leafable)
+	typ := lf.Type()
+	isList := typ.Format().IsList()
+	srcs := c10Sources(c.Kind)
+	if c.Kind == "string" {
+		srcs = append(srcs, c10NameSources()...)
+	}
+	ocs := map[string]bool{}
+	target := map[string]string{"e": "enum", "le": "enum", "b": "bits", "lb": "bits", "idr": "identityref", "lidr": "identityref", "r8": "int8", "r64": "uint64", "lr8": "int8", "un": "union", "us": "union"}[c.Schema]
+	site := fmt.Sprintf("C10/schema/%s%s/%s", target, map[bool]string{true: "-list", false: ""}[isList], kindGroup(c.Kind))
+	if strings.HasPrefix(c.Schema, "r") || c.Schema == "lr8" {
+		site = fmt.Sprintf("C10/schema/leafref-to-%s%s/%s", target, map[bool]string{true: "-list", false: ""}[isList], kindGroup(c.Kind))
+	}
+	checkOne := func(s srcVal, it val.Value) (string, string) {
+		switch target {
+		case "enum":
+			return c10CheckEnum(s, it)
+		case "bits":
+			return c10CheckBits(s, it)
+		case "identityref":
+			return c10CheckIdent(s, it)
+		case "int8", "uint64":
+			if f := it.Format().Single(); f.String() != target {
+				return "wrong-format", fmt.Sprintf("result format %s", it.Format())
+			}
+			return checkScalar(target, s, it.Value(), it.String())
+		case "union":
+			members := map[string][]string{"un": {"int8", "boolean"}, "us": {"uint8", "string"}}[c.Schema]
+			for _, mt := range members {
+				if it.Format().String() == mt {
+					return checkScalar(mt, s, it.Value(), it.String())
+				}
+			}
+			return "result-not-a-member-type", fmt.Sprintf("result format %s", it.Format())
+		}
+		return "", ""
+	}
+	one := func(input interface{}, elems []srcVal, shape string) {
+		var v val.Value
+		var err error
+		fr, msg, pan := eng.Recover(func() { v, err = node.NewValue(typ, input) })
+		res.Evals++
+		res.Nontriv++
+		if pan {
+			ss.add(site+"/"+c10SrcClass(elems[len(elems)-1])+"/panic:"+fr, fmt.Sprintf("NewValue(%s, %s%s) panics: %s", c.Schema, elems[len(elems)-1].lbl, shape, msg))
+			return
+		}
+		if err != nil {
+			ocs["error"] = true
+			return
+		}
+		if v == nil {
+			ocs["nil"] = true
+			ss.add(site+"/"+c10SrcClass(elems[len(elems)-1])+"/nil-without-error", fmt.Sprintf("NewValue(%s, %T %s%s) returned (nil, nil)", c.Schema, input, elems[len(elems)-1].lbl, shape))
+			return
+		}
+		ocs["ok"] = true
+		if !isList {
+			if sym, what := checkOne(elems[0], v); sym != "" {
+				ss.add(site+"/"+c10SrcClass(elems[0])+"/"+sym, fmt.Sprintf("NewValue(%s, %T %s): %s", c.Schema, elems[0].v, elems[0].lbl, what))
+			}
+			return
+		}
+		l, ok := v.(val.Listable)
+		if !ok {
+			ss.add(site+"/not-listable", fmt.Sprintf("NewValue(%s, …) result %T is not a list", c.Schema, v))
+			return
+		}
+		if target == "bits" && shape == "/single" && elems[0].txt != nil {
+			// a single string for a list of bits is one element holding several names
+			if l.Len() != 1 {
+				ss.add(site+"/wrong-length", fmt.Sprintf("NewValue(%s, %s) has %d elements", c.Schema, elems[0].lbl, l.Len()))
+				return
+			}
+		} else if l.Len() != len(elems) {
+			ss.add(site+"/"+c10SrcClass(elems[len(elems)-1])+"/wrong-length", fmt.Sprintf("NewValue(%s, %d elements %s) has %d elements", c.Schema, len(elems), shape, l.Len()))
+			return
+		}
+		for i, e := range elems {
+			if i >= l.Len() {
+				break
+			}
+			if sym, what := checkOne(e, l.Item(i)); sym != "" {
+				ss.add(site+"/"+c10SrcClass(e)+"/"+sym, fmt.Sprintf("NewValue(%s, %s element %d %T %s): %s", c.Schema, shape, i, e.v, e.lbl, what))
+			}
+		}
+	}
+	one0 := big.NewRat(1, 1)
+	small := srcVal{v: int(1), num: one0, lbl: "1"}
+	for _, s := range srcs {
+		if !isList {
+			one(s.v, []srcVal{s}, "")
+			continue
+		}
+		one(s.v, []srcVal{s}, "/single")
+		rt := reflect.TypeOf(s.v)
+		sl := reflect.MakeSlice(reflect.SliceOf(rt), 0, 2)
+		sl1 := reflect.Append(sl, reflect.ValueOf(s.v))
+		one(sl1.Interface(), []srcVal{s}, "/typed-slice")
+		sl2 := reflect.Append(sl1, reflect.ValueOf(srcs[0].v))
+		one(sl2.Interface(), []srcVal{s, srcs[0]}, "/typed-slice")
+		one([]interface{}{small.v, s.v}, []srcVal{small, s}, "/iface-slice")
+	}
+	for k := range ocs {
+		res.Outcomes = append(res.Outcomes, "schema:"+c.Schema+":"+k)
+	}
+	sort.Strings(res.Outcomes)
+	return res
+}
